@@ -441,6 +441,37 @@ func runC10(r *Run) {
 		}
 		r.check(ipsWrites >= 1, "handleTrustedProxy:single-address-by-identity", r.fpos(f), "single addresses are recorded in the ips set", "single proxy addresses are no longer recorded by identity")
 	})
+
+	r.rule("R6", "writer/reader agreement on the key of the single-address set: both sides use the canonical text of a parsed address (E5)", func() {
+		producer := func(v ssa.Value) string {
+			if c, ok := stripValue(v).(*ssa.Call); ok {
+				return calleeName(&c.Call)
+			}
+			if _, ok := stripValue(v).(*ssa.Parameter); ok {
+				return "the configured text as written"
+			}
+			return "?"
+		}
+		w := r.Fn("", "(*App).handleTrustedProxy")
+		wk := ""
+		for _, in := range instrsWhere(w, func(in ssa.Instruction) bool { _, ok := in.(*ssa.MapUpdate); return ok }) {
+			mu := in.(*ssa.MapUpdate)
+			if loadOfField(mu.Map, "TrustProxyConfig.ips") {
+				wk = producer(mu.Key)
+			}
+		}
+		rd := r.Fn("", "(*DefaultCtx).IsProxyTrusted")
+		rk := ""
+		for _, in := range instrsWhere(rd, func(in ssa.Instruction) bool { _, ok := in.(*ssa.Lookup); return ok }) {
+			lk := in.(*ssa.Lookup)
+			if loadOfField(lk.X, "TrustProxyConfig.ips") {
+				rk = producer(lk.Index)
+			}
+		}
+		r.need(wk != "" && rk != "", "the ips set is written by handleTrustedProxy and read by IsProxyTrusted")
+		r.check(wk == rk, "TrustProxyConfig.ips:key-agreement", r.fpos(w), "both sides key the set by "+short(rk),
+			"the single-address set is written under "+short(wk)+" and looked up under "+short(rk)+": a proxy written as 2001:DB8::1 or 2001:0db8::1 is never matched by the peer 2001:db8::1, whose forwarded values are then ignored")
+	})
 }
 
 // listCuts: true edges of the explicit membership tests (ips map lookup ok, ipNet.Contains).
